@@ -28,7 +28,7 @@ def run_digest(cfg, ambient, perturb):
     with attach.Hooks() as hk:
         attach.iteration_budget(hk, 400)
         with Tap() as tap:
-            s.run(n_total=runs.full(cfg)["n_total"], progress=False)
+            s.run(n_total=runs.full(cfg)["n_total"], progress=runs.prog(cfg))
     H = runs.history(s)
     x, w, l = s.posterior(trim_importance_weights=False)
     after = float(np.random.rand())
@@ -50,7 +50,7 @@ def resume_repro_case(cfg, rs):
         c = dict(runs.full(cfg), random_state=rs, output_dir=tmp, output_label="r9")
         np.random.seed(5)
         s, t, like, pt = runs.build(c)
-        s.run(n_total=c["n_total"], progress=False, save_every=1)
+        s.run(n_total=c["n_total"], progress=runs.prog(c), save_every=1)
         files = sorted((f for f in os.listdir(tmp) if f.startswith("r9_") and "final" not in f), key=lambda f: int(f.split("_")[1].split(".")[0]))
         if len(files) < 2:
             return [], 0
@@ -60,7 +60,7 @@ def resume_repro_case(cfg, rs):
             np.random.seed(amb)
             np.random.rand(amb % 7)
             s2, _, _, _ = runs.build(c)
-            s2.run(n_total=c["n_total"], progress=False, resume_state_path=pick)
+            s2.run(n_total=c["n_total"], progress=runs.prog(c), resume_state_path=pick)
             dg.append((digest(runs.history(s2)), float(s2.evidence()[0])))
         if dg[0] != dg[1]:
             return [("seeded-run-not-reproducible", f"resuming twice from the same checkpoint with random_state={rs}: logZ {dg[0][1]!r} vs {dg[1][1]!r}")], len(files)
